@@ -178,6 +178,15 @@ impl SubReport {
             *self.classes.entry(c.clone()).or_insert(0) += 1;
         }
     }
+    /// like record() but evaluations are counted by the caller
+    pub fn record_only(&mut self, out: &CaseOut) {
+        if out.nontrivial {
+            self.nontrivial.insert(out.digest);
+        }
+        for c in &out.class {
+            *self.classes.entry(c.clone()).or_insert(0) += 1;
+        }
+    }
     pub fn sample(&mut self, v: Value) {
         if self.samples.len() < 8 {
             self.samples.push(v);
